@@ -213,6 +213,9 @@ fn install_panic_hook() {
     } else {
       String::from("?")
     };
+    if std::env::var("VERIF_BT").is_ok() {
+      eprintln!("PANIC {loc}: {msg}\n{}", std::backtrace::Backtrace::force_capture());
+    }
     LAST_PANIC.with(|p| {
       let mut p = p.borrow_mut();
       if p.is_empty() {
@@ -289,7 +292,8 @@ fn run_case(c: &J) -> (J, bool) {
     "period" => verif::core::GcMode::Period(gc.map(|g| gu64(g, "period")).unwrap_or(1)),
     _ => verif::core::GcMode::Natural,
   };
-  verif::core::set_gc_plan(gmode, kind, &points);
+  // std-lib creation cannot collect (no root context); the plan starts counting after it
+  verif::core::set_gc_plan(verif::core::GcMode::Never, 0, &[]);
   verif::set_cache_bypass(gbool(c, "cache_off"));
   verif::set_rule_mask(gu64(c, "mask") as u32);
   verif::set_compile_only(gbool(c, "compile_only"));
@@ -300,9 +304,11 @@ fn run_case(c: &J) -> (J, bool) {
   let alloc_mode = match gstr(c, "alloc").unwrap_or("system") {
     "poison" => 1,
     "quarantine" => 2,
+    "reuse_lifo" => 3,
+    "reuse_fifo" => 4,
     _ => 0,
   };
-  if alloc_mode != 0 {
+  if alloc_mode == 1 || alloc_mode == 2 {
     verif::core::set_liveness_oracle(Some(liveness_oracle));
   } else {
     verif::core::set_liveness_oracle(None);
@@ -327,6 +333,8 @@ fn run_case(c: &J) -> (J, bool) {
     let mut vm = Vm::new(io);
     // hooks count from here: allocation points of std lib creation are excluded
     let base_allocs = verif::core::alloc_points();
+    let shifted: Vec<(u64, u8)> = points.iter().map(|(p, k)| (p + base_allocs, *k)).collect();
+    verif::core::set_gc_plan(gmode, kind, &shifted);
     valloc::set_mode(alloc_mode);
     let r = if repl.is_some() {
       vm.repl()
@@ -370,6 +378,7 @@ fn run_case(c: &J) -> (J, bool) {
     "bad_free": after.bad_free,
     "releases": after.releases,
     "quarantined": after.quarantined,
+    "reused": after.reused,
     "q_overflow": after.overflow,
     "wall": wall,
   });
